@@ -61,14 +61,44 @@ func c06G5(c *Ctx, r *Report, a *Anchors) {
 				}
 				n++
 				ord[pc.kind]++
-				allowed := false
-				switch pc.kind {
-				case kKey:
-					allowed = fn == a.field
-				case kIndex:
-					allowed = fn == a.list || fn.Name() == "CoerceIn"
-				case kArg:
-					allowed = fn == a.formArgs || fn.Name() == "CoerceIn" || c.onlyCalledFrom(fn, "CoerceIn")
+				mayAdd := func(fn *ssa.Function, k pfxKind) bool {
+					switch k {
+					case kKey:
+						return fn == a.field
+					case kIndex:
+						return fn == a.list || fn.Name() == "CoerceIn"
+					case kArg:
+						return fn == a.formArgs || fn.Name() == "CoerceIn" || c.onlyCalledFrom(fn, "CoerceIn")
+					}
+					return false
+				}
+				allowed := mayAdd(fn, pc.kind)
+				if par, isP := pc.arg.(*ssa.Parameter); isP && pc.kind == kOther && par.Parent() == fn {
+					// the segment is handed in by the caller as an untyped value (an index from the list
+					// coercer, a field name from the input coercer): each caller must be allowed to add
+					// the kind of segment it hands in
+					idx := -1
+					for i, q := range fn.Params {
+						if q == par {
+							idx = i
+						}
+					}
+					sites := 0
+					allowed = true
+					for _, cf := range c.allFns {
+						for _, ci := range callsIn(cf) {
+							if ci.Common().StaticCallee() != fn || idx < 0 || idx >= len(ci.Common().Args) {
+								continue
+							}
+							sites++
+							if !mayAdd(cf, e.classify(stripIface(ci.Common().Args[idx]))) {
+								allowed = false
+							}
+						}
+					}
+					if sites == 0 {
+						allowed = false
+					}
 				}
 				key := fmt.Sprintf("%s: %s prefix #%d", fnName(fn), kindName[pc.kind], ord[pc.kind])
 				table = append(table, key)
@@ -309,6 +339,79 @@ func c06IndexIdentity(c *Ctx, r *Report, fn *ssa.Function, e *pfxEngine, a *Anch
 	r.floor("C06.G1", "index prefix calls inside element loops", n, 5)
 }
 
+// c06AdderReturns: every value the error adder returns is acc+1 (one single-element append to the
+// accumulator parameter), a result of the adder itself, or the accumulator parameter seen through the
+// header phi of a loop (no member in the group).
+func c06AdderReturns(fn *ssa.Function) bool {
+	var acc *ssa.Parameter
+	for _, p := range fn.Params {
+		if isErrSlice(p.Type()) {
+			acc = p
+		}
+	}
+	if acc == nil {
+		return false
+	}
+	loops := loopsOf(fn)
+	isHead := map[*ssa.BasicBlock]bool{}
+	for _, l := range loops {
+		isHead[l.head] = true
+	}
+	seen := map[ssa.Value]bool{}
+	ok := true
+	n := 0
+	var walk func(v ssa.Value, viaLoop bool)
+	walk = func(v ssa.Value, viaLoop bool) {
+		if !ok {
+			return
+		}
+		if v == ssa.Value(acc) {
+			if !viaLoop {
+				ok = false
+			}
+			return
+		}
+		if seen[v] {
+			return
+		}
+		seen[v] = true
+		switch t := v.(type) {
+		case *ssa.Phi:
+			for _, e := range t.Edges {
+				walk(e, viaLoop || isHead[t.Block()])
+			}
+		case *ssa.Call:
+			if isBuiltinCall(t, "append") && len(t.Call.Args) == 2 {
+				elems, isLit := sliceLitElems(t.Call.Args[1])
+				if !isLit || len(elems) != 1 {
+					ok = false
+					return
+				}
+				n++
+				// what is extended: the parameter, or something that already satisfies the rule
+				if t.Call.Args[0] != ssa.Value(acc) {
+					walk(t.Call.Args[0], true)
+				}
+				return
+			}
+			if t.Call.StaticCallee() == fn {
+				return
+			}
+			ok = false
+		default:
+			ok = false
+		}
+	}
+	for _, rt := range returnsOf(fn) {
+		for _, res := range rt.Results {
+			if isErrSlice(res.Type()) {
+				walk(res, false)
+			}
+		}
+	}
+	return ok && n > 0
+}
+
 func c06G3(c *Ctx, r *Report, a *Anchors) {
 	fn := a.addError
 	obj, _ := fn.Object().(*types.Func)
@@ -415,7 +518,13 @@ func c06G3(c *Ctx, r *Report, a *Anchors) {
 	_ = errParam
 	r.check("C06.G3", fnName(fn)+": group arm ranges over every member and recurses, threading the accumulator", firstPos(groupPos, fd.Pos()), groupArm, "a resolver returning a group of errors must yield one entry per member: no range over the Errors value with a recursive call on each element was found")
 	r.check("C06.G3", fnName(fn)+": structured-error arm carries Extensions", firstPos(extPos, fd.Pos()), extArm, "the Extensions of a resolver's *Error must be copied to the reported error")
-	r.check("C06.G3", fnName(fn)+": default arm appends the error", fd.Pos(), defaultArm, "plain errors must be appended in the default arm")
+	if !defaultArm {
+		// the same fact read from the value flow, whatever the statement form (switch, if chain, guard
+		// clauses): every accumulator the function returns is the parameter plus exactly one append, the
+		// result of the recursive call, or the parameter as it comes round the loop over a group
+		defaultArm = c06AdderReturns(fn)
+	}
+	r.check("C06.G3", fnName(fn)+": default arm appends the error", fd.Pos(), defaultArm, "plain errors must be appended in the default arm: some return hands back the accumulator as it came in, outside the loop over a group")
 	// each non-group path appends exactly one entry: SSA check - appends to the accumulator outside loops add exactly one element
 	n := 0
 	for _, b := range fn.Blocks {
